@@ -52,9 +52,9 @@ enum SolverKind { S_PLUS = 0, S_PGS = 1 };
 static const char* SN[2] = {"PLUS", "PGS"};
 
 enum Klass { K_BILATERAL = 0, K_UNCOND, K_FRICTIONLESS, K_FRICTION_DESIGNED, K_FRICTION_GENERIC, K_EXPANSION,
-             K_BOUNDED, K_LTDFRICTION, K_UNISPEED, K_MIXED, K_EASY, K_COUNT };
+             K_BOUNDED, K_LTDFRICTION, K_UNISPEED, K_MIXED, K_EASY, K_STICKSLIP, K_COUNT };
 static const char* KN[K_COUNT] = {"bilateral", "uncond", "frictionless", "friction-designed", "friction-generic", "expansion",
-                                  "bounded", "ltd-friction", "unispeed", "mixed", "easy"};
+                                  "bounded", "ltd-friction", "unispeed", "mixed", "easy", "stick-slip"};
 
 // ------------------------------------------------------------------ problem description
 struct Con { int Nk = -1, sign = 1; VI Fk; int type = IS::Participating; double mu = 0; };
@@ -140,6 +140,7 @@ static Prob generate(Rng& r, int klass, int solver, long ci) {
     case K_BILATERAL: case K_UNCOND: case K_EASY: nUnc = r.integer(1, 6); nIdle = r.integer(0, 4); break;
     case K_FRICTIONLESS: nUnc = r.integer(0, 2); nCon = r.integer(1, 8); break;
     case K_FRICTION_DESIGNED: case K_FRICTION_GENERIC: nUnc = r.integer(0, 2); nCon = r.integer(1, 6); pFric = 0.8; break;
+    case K_STICKSLIP: nUnc = r.integer(0, 1); nCon = r.integer(1, 4); pFric = 1.0; pObs = 0; pKnown = r.coin(0.3) ? 0.4 : 0; break;
     case K_EXPANSION: nUnc = r.integer(0, 1); nCon = r.integer(1, 6); pFric = 0.6; pKnown = 0.5; break;
     case K_BOUNDED: nUnc = r.integer(0, 3); nBnd = r.integer(1, 4); break;
     case K_LTDFRICTION: nUnc = r.integer(1, 3); nClf = r.integer(0, 2); nSlf = r.integer(0, 2); if (nClf + nSlf == 0) nSlf = 1; break;
@@ -202,11 +203,11 @@ static Prob generate(Rng& r, int klass, int solver, long ci) {
     if (r.coin(0.5)) for (int i = (int)P.part.size() - 1; i > 0; --i) std::swap(P.part[i], P.part[r.integer(0, i)]);
 
     // ---- matrix, D
-    int rankMode = klass == K_EASY ? 3 : (klass == K_FRICTION_GENERIC ? 0 : (int)((ci / (2 * K_COUNT)) % 3));
+    int rankMode = klass == K_EASY ? 3 : ((klass == K_FRICTION_GENERIC || klass == K_STICKSLIP) ? 0 : (int)((ci / (2 * K_COUNT)) % 3));
     genMatrix(r, P, rankMode);
     P.D.assign(m, 0.0);
     int dMode = (int)((ci / (2 * K_COUNT * 3)) % 3);      // 0: D=0, 1: some rows, 2: all rows
-    if (klass == K_FRICTION_GENERIC) dMode = (solver == S_PGS && r.coin(0.3)) ? 1 : 0;
+    if (klass == K_FRICTION_GENERIC || klass == K_STICKSLIP) dMode = (solver == S_PGS && r.coin(0.3)) ? 1 : 0;
     if (dMode) for (int i = 0; i < m; ++i) if (dMode == 2 || r.coin(0.4)) P.D[i] = r.logUni(1e-3, 2.0);
     bool anyD = false; for (double d : P.D) anyD |= d > 0;
     P.dClass = anyD ? "Dpos" : "D0";
@@ -219,11 +220,11 @@ static Prob generate(Rng& r, int klass, int solver, long ci) {
     else if (solver == S_PGS && r.coin(0.3)) P.maxIters = 1000;
 
     // ---- right-hand side
-    const bool applied = (klass != K_BILATERAL) && r.coin(0.5);
+    const bool applied = (klass != K_BILATERAL) && (r.coin(0.5) || klass == K_STICKSLIP);
     P.piExpand.assign(m, 0.0);
     for (auto& c : P.con) if (c.type == IS::Known) P.piExpand[c.Nk] = -c.sign * r.uni(0.2, 2.0);
     P.designed = !(rankMode == 0 || rankMode == 3) || klass == K_FRICTION_DESIGNED || r.coin(0.3);
-    if (klass == K_FRICTION_GENERIC) P.designed = false;
+    if (klass == K_FRICTION_GENERIC || klass == K_STICKSLIP) P.designed = false;
     VD tot(m, 0.0), start(m, 0.0); std::vector<char> startFixed(m, 0);
     if (!P.designed) {
         for (int i = 0; i < m; ++i) tot[i] = r.normal() * 1.5;
@@ -231,6 +232,7 @@ static Prob generate(Rng& r, int klass, int solver, long ci) {
         for (auto& c : P.con) if (r.coin(0.8)) tot[c.Nk] = -c.sign * std::fabs(tot[c.Nk]);
     } else {
         std::vector<LD> pis(m, 0), vs(m, 0);
+        std::map<int, std::pair<double, double>> slideDir;      // PLUS-model sliding contacts: first friction row -> direction
         for (int x : uncRows) pis[x] = r.normal();
         for (auto& c : P.con) {
             if (c.type == IS::Observing) continue;
@@ -248,7 +250,7 @@ static Prob generate(Rng& r, int klass, int solver, long ci) {
             } else {
                 for (int q = 0; q < 2; ++q) pis[c.Fk[q]] = c.mu * N * d[q];
                 if (solver == S_PGS) { double al = r.uni(0.1, 1.5); for (int q = 0; q < 2; ++q) vs[c.Fk[q]] = al * d[q]; }
-                else for (int q = 0; q < 2; ++q) vs[c.Fk[q]] = 1e300;   // marker: fixed below (PLUS model: initial slip along d)
+                else { for (int q = 0; q < 2; ++q) vs[c.Fk[q]] = 1e300; slideDir[c.Fk[0]] = std::make_pair(d[0], d[1]); }   // fixed below (PLUS model: initial slip along d)
             }
         }
         for (auto& s : P.spd) { if (r.coin(0.6)) pis[s.ix] = -s.sign * r.uni(0.2, 2.0); else vs[s.ix] = s.sign * r.uni(0.1, 1.0); }
@@ -279,10 +281,13 @@ static Prob generate(Rng& r, int klass, int solver, long ci) {
         // PLUS sliding rows: initial slip beta*d with beta large enough that the direction change stays < 30 deg
         for (auto& c : P.con) if (!c.Fk.empty() && vs[c.Fk[0]] == 1e300) {
             double yn = std::hypot((double)y[c.Fk[0]], (double)y[c.Fk[1]]);
-            double pn = std::hypot((double)pis[c.Fk[0]], (double)pis[c.Fk[1]]);
+            const double dd[2] = {slideDir[c.Fk[0]].first, slideDir[c.Fk[0]].second};
             double beta = 3 * yn + 3 * P.maxRoll + r.uni(0.5, 2.0);
-            for (int q = 0; q < 2; ++q) { double dq = (double)pis[c.Fk[q]] / pn; tot[c.Fk[q]] = beta * dq; start[c.Fk[q]] = beta * dq; startFixed[c.Fk[q]] = 1; }
+            for (int q = 0; q < 2; ++q) { double dq = dd[q]; tot[c.Fk[q]] = beta * dq; start[c.Fk[q]] = beta * dq; startFixed[c.Fk[q]] = 1; }
         }
+    }
+    if (klass == K_STICKSLIP) for (auto& c : P.con) for (int q = 0; q < 2; ++q) {   // sticking initially; applied push of random size
+        start[c.Fk[q]] = r.sym(0.5) * P.maxRoll; startFixed[c.Fk[q]] = 1; tot[c.Fk[q]] = r.normal() * (r.coin(0.5) ? 0.3 : 3.0);
     }
     // split the total into verrStart (+ verrApplied)
     P.verrStart.assign(m, 0.0);
